@@ -77,6 +77,11 @@ type Rule struct {
 	// the elements' own length when ElemMaxLen is set ([][]byte, []string).
 	MinLen, MaxLen, FixLen int
 	ElemMaxLen             int
+	// Cap is the largest length the DECODER accepts for this field (MaxLen is
+	// only what ordinary instances use). 0 = the effective generator maximum
+	// (MaxLen or the Config default) is the cap. ElemCap is Cap for the
+	// elements of a slice ([][]byte, []string). Used by the boundary pass.
+	Cap, ElemCap int
 	// Values restricts an integer leaf to an enumerated set.
 	Values []uint64
 	// MaxVal bounds an unsigned/signed integer leaf (0 = type range).
@@ -97,9 +102,15 @@ type Config struct {
 	// MinEntries == MaxSlice == MaxMap == 1 gives values whose serialisation
 	// does not depend on map iteration order while still reaching every field.
 	MinEntries int
-	MaxBytes   int // default max len of []byte
-	MaxString  int
-	MaxDepth   int
+	// StringCap / CountCap: decoder caps assumed for strings and for element
+	// counts that have no Rule.Cap (0 = 1<<24 resp. 1<<20).
+	StringCap, CountCap int
+	// VarUintKeys lists integer leaves that are written as var-ints (values,
+	// not lengths); the boundary pass drives them to the encoding boundaries.
+	VarUintKeys []string
+	MaxBytes    int // default max len of []byte
+	MaxString   int
+	MaxDepth    int
 	// Rules by "pkg.Type.Field".
 	Rules map[string]Rule
 	// Types: custom builder for a whole type (value of that type, addressable).
@@ -167,17 +178,43 @@ type Filler struct {
 	Ctx       map[string]interface{}
 	depth     int
 	inPerturb bool
+	// Sites lists every variable-length site (byte string, string, slice,
+	// map) met during the fill, in order. ForceSite/ForceLen (set before
+	// generating) pin the length of site number ForceSite to ForceLen.
+	Sites     []SiteInfo
+	ForceSite int
+	ForceLen  int
+}
+
+// SiteKind classifies a variable-length site.
+type SiteKind int
+
+const (
+	SiteBytes SiteKind = iota
+	SiteString
+	SiteSlice
+	SiteMap
+)
+
+// SiteInfo describes one variable-length site of a generated instance.
+type SiteInfo struct {
+	Key      string
+	Path     string
+	Kind     SiteKind
+	Cap      int  // largest length the decoder accepts
+	ElemLeaf bool // slice/map whose elements are leaves (cheap to make long)
+	Len      int  // the length used
 }
 
 // New returns a filler for seed.
 func New(cfg *Config, seed uint64) *Filler {
-	return &Filler{Cfg: cfg, S: NewRng(seed), perturb: -1, Ctx: map[string]interface{}{}}
+	return &Filler{Cfg: cfg, S: NewRng(seed), perturb: -1, Ctx: map[string]interface{}{}, ForceSite: -1}
 }
 
 // NewPerturbed returns a filler producing the same value as New(cfg, seed)
 // except that leaf number k receives a different value.
 func NewPerturbed(cfg *Config, seed uint64, k int) *Filler {
-	return &Filler{Cfg: cfg, S: NewRng(seed), perturb: k, Ctx: map[string]interface{}{}}
+	return &Filler{Cfg: cfg, S: NewRng(seed), perturb: k, Ctx: map[string]interface{}{}, ForceSite: -1}
 }
 
 // Fill populates *ptr.
@@ -268,11 +305,31 @@ func IsLeafType(t reflect.Type) bool {
 	return isByteSlice(t) || isByteArray(t)
 }
 
-func (f *Filler) length(rule Rule, def int) int { return f.lengthMin(rule, def, 0) }
-
-func (f *Filler) lengthMin(rule Rule, def, defMin int) int {
-	if rule.FixLen > 0 {
-		return rule.FixLen
+// siteLen draws the length of a variable-length site, records the site and
+// applies ForceSite/ForceLen. forced reports that the length was pinned.
+func (f *Filler) siteLen(rule Rule, kind SiteKind, elemLeaf bool, key, path string) (n int, forced bool) {
+	def, defMin, defCap := 0, 0, 0
+	switch kind {
+	case SiteBytes:
+		def = f.Cfg.MaxBytes
+	case SiteString:
+		def = f.Cfg.MaxString
+		defCap = f.Cfg.StringCap
+		if defCap == 0 {
+			defCap = 1 << 24
+		}
+	case SiteSlice:
+		def, defMin = f.Cfg.MaxSlice, f.Cfg.MinEntries
+		defCap = f.Cfg.CountCap
+		if defCap == 0 {
+			defCap = 1 << 20
+		}
+	case SiteMap:
+		def, defMin = f.Cfg.MaxMap, f.Cfg.MinEntries
+		defCap = f.Cfg.CountCap
+		if defCap == 0 {
+			defCap = 1 << 20
+		}
 	}
 	max := def
 	if rule.MaxLen > 0 {
@@ -285,7 +342,25 @@ func (f *Filler) lengthMin(rule Rule, def, defMin int) int {
 	if max < min {
 		max = min
 	}
-	return min + f.S.Intn(max-min+1)
+	cap := rule.Cap
+	if cap == 0 {
+		if rule.MaxLen > 0 || defCap == 0 {
+			cap = max
+		} else {
+			cap = defCap
+		}
+	}
+	if rule.FixLen > 0 {
+		n, cap = rule.FixLen, rule.FixLen
+	} else {
+		n = min + f.S.Intn(max-min+1)
+	}
+	idx := len(f.Sites)
+	if idx == f.ForceSite && rule.FixLen == 0 && f.ForceLen >= rule.MinLen && f.ForceLen <= cap {
+		n, forced = f.ForceLen, true
+	}
+	f.Sites = append(f.Sites, SiteInfo{Key: key, Path: path, Kind: kind, Cap: cap, ElemLeaf: elemLeaf, Len: n})
+	return n, forced
 }
 
 // GenInt produces an edge-biased integer for kind k honouring rule.
@@ -402,19 +477,19 @@ func (f *Filler) leafValue(v reflect.Value, rule Rule, key, path string) {
 			}
 		})
 	case t.Kind() == reflect.String:
-		n := f.length(rule, f.Cfg.MaxString)
+		n, forced := f.siteLen(rule, SiteString, false, key, path)
 		f.Leaf(v, key, path, func(r *Rng, v reflect.Value) {
 			m := n
-			if rule.FixLen == 0 && r.Intn(4) == 0 { // perturbation may also change the length
+			if rule.FixLen == 0 && !forced && r.Intn(4) == 0 { // perturbation may also change the length
 				m = rule.MinLen + r.Intn(n-rule.MinLen+1)
 			}
 			v.SetString(genString(r, m))
 		})
 	case isByteSlice(t):
-		n := f.length(rule, f.Cfg.MaxBytes)
+		n, forced := f.siteLen(rule, SiteBytes, false, key, path)
 		f.Leaf(v, key, path, func(r *Rng, v reflect.Value) {
 			m := n
-			if rule.FixLen == 0 && r.Intn(4) == 0 {
+			if rule.FixLen == 0 && !forced && r.Intn(4) == 0 {
 				m = rule.MinLen + r.Intn(n-rule.MinLen+1)
 			}
 			v.SetBytes(r.Bytes(m))
@@ -470,7 +545,7 @@ func (f *Filler) valueRule(v reflect.Value, rule Rule, key, path string) {
 			return
 		}
 		p := reflect.New(t.Elem())
-		f.valueRule(p.Elem(), Rule{MaxLen: rule.MaxLen, MinLen: rule.MinLen, FixLen: rule.FixLen, Values: rule.Values, MaxVal: rule.MaxVal, NonNeg: rule.NonNeg, ElemMaxLen: rule.ElemMaxLen}, key, path)
+		f.valueRule(p.Elem(), Rule{MaxLen: rule.MaxLen, MinLen: rule.MinLen, FixLen: rule.FixLen, Values: rule.Values, MaxVal: rule.MaxVal, NonNeg: rule.NonNeg, ElemMaxLen: rule.ElemMaxLen, Cap: rule.Cap, ElemCap: rule.ElemCap}, key, path)
 		v.Set(p)
 	case reflect.Interface:
 		impls := f.Cfg.Impl[t]
@@ -484,21 +559,29 @@ func (f *Filler) valueRule(v reflect.Value, rule Rule, key, path string) {
 	case reflect.Struct:
 		f.Struct(v, path)
 	case reflect.Slice:
-		n := f.lengthMin(rule, f.Cfg.MaxSlice, f.Cfg.MinEntries)
+		n, _ := f.siteLen(rule, SiteSlice, IsLeafType(t.Elem()), key, path)
 		s := reflect.MakeSlice(t, n, n)
-		er := Rule{MaxLen: rule.ElemMaxLen, Values: rule.Values, MaxVal: rule.MaxVal, NonNeg: rule.NonNeg}
+		er := Rule{MaxLen: rule.ElemMaxLen, Cap: rule.ElemCap, Values: rule.Values, MaxVal: rule.MaxVal, NonNeg: rule.NonNeg}
+		// elements draw from a sub-stream: what follows the container does not
+		// depend on how many elements it has
+		outer := f.S
+		f.S = NewRng(outer.Uint64())
 		for i := 0; i < n; i++ {
 			f.valueRule(s.Index(i), er, key, fmt.Sprintf("%s[%d]", path, i))
 		}
+		f.S = outer
 		v.Set(s)
 	case reflect.Array:
 		for i := 0; i < v.Len(); i++ {
 			f.valueRule(v.Index(i), Rule{}, key, fmt.Sprintf("%s[%d]", path, i))
 		}
 	case reflect.Map:
-		n := f.lengthMin(rule, f.Cfg.MaxMap, f.Cfg.MinEntries)
+		n, _ := f.siteLen(rule, SiteMap, IsLeafType(t.Elem()), key, path)
 		m := reflect.MakeMapWithSize(t, n)
 		er := Rule{MaxLen: rule.ElemMaxLen, Values: rule.Values, MaxVal: rule.MaxVal, NonNeg: rule.NonNeg}
+		outer := f.S
+		f.S = NewRng(outer.Uint64())
+		defer func() { f.S = outer }()
 		for i := 0; i < n; i++ {
 			k := reflect.New(t.Key()).Elem()
 			f.valueRule(k, Rule{MaxLen: rule.ElemMaxLen, MinLen: 1}, key+"#key", fmt.Sprintf("%s{k%d}", path, i))
@@ -924,6 +1007,7 @@ type Codec struct {
 type Outcome struct {
 	Value, Decoded interface{}
 	Leaves         []LeafInfo
+	Sites          []SiteInfo
 	Bytes          []byte
 	EncErr         error
 	DecErr         error
@@ -941,6 +1025,7 @@ func RoundTrip(cfg *Config, seed uint64, c Codec) *Outcome {
 	f := New(cfg, seed)
 	o.Value = c.Gen(f)
 	o.Leaves = f.Leaves
+	o.Sites = f.Sites
 	o.Bytes, o.EncErr = c.Enc(o.Value)
 	if o.EncErr != nil {
 		return o
@@ -1004,4 +1089,54 @@ func PathUnder(p, d string) bool {
 		return c == '.' || c == '[' || c == '{'
 	}
 	return false
+}
+
+// ---------------------------------------------------------------- boundary lengths
+
+// BoundaryLengths are the lengths/counts at which the var-int encoding of a
+// length changes width (0xfc|0xfd and 0xffff|0x10000) plus their neighbours.
+var BoundaryLengths = []int{252, 253, 254, 255, 256, 65535, 65536}
+
+// VarUintBoundaries are the corresponding values for integer fields that are
+// themselves written as var-ints.
+var VarUintBoundaries = []uint64{0xfc, 0xfd, 0xfe, 0xffff, 0x10000, 0xffffffff, 0x100000000}
+
+// BoundaryCase asks for site number Site of an instance to get length Len.
+type BoundaryCase struct {
+	Site int
+	Len  int
+	Info SiteInfo
+}
+
+// BoundaryPlan lists, for the sites of one generated instance, every
+// admissible boundary length: not above the decoder cap; element counts only
+// up to 256 unless the elements are leaves and longLists is set (cost). Each
+// (key, kind) is planned once (first occurrence). lowCap receives the sites
+// whose cap is below 253.
+func BoundaryPlan(sites []SiteInfo, longLists bool) (plan []BoundaryCase, lowCap []SiteInfo) {
+	type kk struct {
+		k string
+		t SiteKind
+	}
+	seen := map[kk]bool{}
+	for i, s := range sites {
+		id := kk{s.Key, s.Kind}
+		if seen[id] {
+			continue
+		}
+		seen[id] = true
+		if s.Cap < BoundaryLengths[1] {
+			lowCap = append(lowCap, s)
+		}
+		for _, l := range BoundaryLengths {
+			if l > s.Cap {
+				continue
+			}
+			if (s.Kind == SiteSlice || s.Kind == SiteMap) && l > 256 && !(s.ElemLeaf && longLists) {
+				continue
+			}
+			plan = append(plan, BoundaryCase{Site: i, Len: l, Info: s})
+		}
+	}
+	return plan, lowCap
 }
